@@ -37,7 +37,8 @@ impl SchedCfg {
 
 /// kinds that make sense as a concurrent client operation (everything except creating whole new models)
 pub fn client_kinds() -> Vec<K> {
-    ALL_KINDS.iter().copied().filter(|k| !matches!(k, K::MNew | K::ItNext | K::ItOpen | K::MDrop)).collect()
+    // the file-system kinds are single-client business (C10 C11 C12): their locking is that of serialize_files / load_buffer
+    ALL_KINDS.iter().copied().filter(|k| !matches!(k, K::MNew | K::ItNext | K::ItOpen | K::MDrop | K::MLoadFile | K::MWrite)).collect()
 }
 
 pub struct Prepared {
